@@ -76,15 +76,17 @@ Fail(sig) == [ok |-> FALSE, sig |-> sig]
 (* `data` is a ghost component: what the column's pre-existing rows hold.
    "orig-nn" original values without NULLs, "orig-n" original values some of
    which are NULL, "filled" original with NULLs replaced by an initial value,
-   "init" the initial value everywhere, "null" NULL everywhere.
+   "init:<token>" the initial value everywhere, "filled:<token>" original with NULLs
+   replaced by that initial value, "null" NULL everywhere.
    It is not part of the signature (SigEq ignores it); DataEq compares it. *)
 NewField(ftype, attrs, init) ==
     [ftype |-> ftype,
      attrs |-> Drop(attrs, "related_model"),
      rel   |-> Get(attrs, "related_model", None),
-     data  |-> IF init # None THEN "init" ELSE "null"]
+     data  |-> IF init # None THEN "init:" \o init ELSE "null"]
 
-FillNulls(d) == CASE d = "orig-n" -> "filled" [] d = "null" -> "init" [] OTHER -> d
+(* the initial value (token) is part of what the rows hold *)
+FillNulls(d, init) == CASE d = "orig-n" -> "filled:" \o init [] d = "null" -> "init:" \o init [] OTHER -> d
 
 (* DeleteField.simulate: drop the field from every unique_together entry *)
 RECURSIVE PruneTuple(_, _)
@@ -128,7 +130,7 @@ Sim(mu, sig) ==
                  fills == /\ Has(mu.attrs, "null") /\ mu.attrs["null"] = FALSE
                           /\ AttrValue(old, "null") = TRUE /\ mu.init # None
                  new == [old EXCEPT !.ftype = newType, !.attrs = newAttrs,
-                                    !.data = IF fills THEN FillNulls(@) ELSE @]
+                                    !.data = IF fills THEN FillNulls(@, mu.init) ELSE @]
              IN IF /\ Has(mu.attrs, "null") /\ mu.attrs["null"] = FALSE
                    /\ newType # "M2M" /\ mu.init = None
                 THEN Fail(sig)
